@@ -3,6 +3,7 @@
 A recipe is {"op": <node>, ...}.  Sub-recipes live under "args" (list) or "base"; tensors are literals
 (lov.lit).  build() calls exactly the public constructors; nothing here computes any matrix value.
 """
+import re
 import warnings
 
 import torch
@@ -29,11 +30,31 @@ def _mat(l, ctx):
     return t
 
 
+LAST_BUILD_JITTER = 0.0  # largest Cholesky jitter psd_safe_cholesky reported while the last recipe was built (0.0: none)
+_JIT_RE = re.compile(r"added jitter of ([0-9.eE+-]+)")
+
+
+def jitter_reported(ws):
+    """largest 'added jitter of X' among recorded warnings (psd_safe_cholesky's first attempt is without jitter and silent)"""
+    out = 0.0
+    for w in ws:
+        m = _JIT_RE.search(str(w.message))
+        if m:
+            try:
+                out = max(out, float(m.group(1)))
+            except ValueError:
+                out = max(out, 1e-4)
+    return out
+
+
 def build(r, ctx=None):
-    """Recipe -> library object (LinearOperator or Tensor for {"op": "Tensor"})."""
-    with warnings.catch_warnings():
-        warnings.simplefilter("ignore")
-        return _build(r, ctx)
+    """Recipe -> library object (LinearOperator or Tensor for {"op": "Tensor"}).  Warnings are swallowed (recorded)."""
+    global LAST_BUILD_JITTER
+    with warnings.catch_warnings(record=True) as ws:
+        warnings.simplefilter("always")
+        out = _build(r, ctx)
+    LAST_BUILD_JITTER = jitter_reported(ws)
+    return out
 
 
 def _build(r, ctx):
